@@ -7,7 +7,9 @@
 //!                     (`sort_rows`, `apply_pagination`, via the cfg hook `verif_sort_paginate`) on
 //!                     random row sets with mixed kinds, random keys / directions / limit / offset;
 //!                     a panic is recorded (catch_unwind), not fatal,
-//!   C35Query          the same through `Handler::query_program` on a stored relation:
+//!   C35Query          the same through the handler query paths on a stored relation (plain query_program, clean
+//!                     session = fast path, dirty session = slow path with ephemeral facts and/or rules; entered via
+//!                     query_program_with_session or execute_program(Some(&sid), ..)):
 //!                     `?t(A:asc, B:desc, C), limit(n, off)` against the un-annotated answer.
 use inputlayer::protocol::handler::{verif_compare_wire_values, verif_sort_paginate};
 use inputlayer::protocol::{Handler, WireTuple, WireValue};
@@ -308,15 +310,31 @@ fn main() {
         sort_case(&mut sink, rows, keys, limit, offset, "sort_random");
     }
 
-    // ---------------- the same through Handler::query_program
-    let nq = (args.n / 8).max(4);
+    // ---------------- the same through the handler's query paths:
+    //   Plain            Handler::query_program(Some(kg), ..)
+    //   SessClean        a session without ephemeral state (fast path of query_program_with_session)
+    //   SessFactInT      part of t's tuples are ephemeral session facts      (slow path)
+    //   SessFactOther    an ephemeral fact in an unrelated relation           (slow path)
+    //   SessRule         an ephemeral session rule over t                     (slow path)
+    //   SessFactAndRule  both                                                 (slow path)
+    // session paths are entered through query_program_with_session or execute_program(Some(&sid), ..)
     let rt = tokio::runtime::Builder::new_current_thread().enable_all().build().expect("rt");
+    // corpus: a score table, top-k / bottom-k / windows, on every path (the stored order is not the sorted order)
+    {
+        let names = ["m", "c", "x", "a", "q", "f", "z", "b", "k"];
+        let scores = [30i64, 10, 90, 20, 70, 50, 40, 80, 60];
+        let tuples: Vec<Tuple> =
+            (0..names.len()).map(|i| Tuple::new(vec![Value::string(names[i]), Value::Int64(scores[i]), Value::Int64(i as i64)])).collect();
+        for (pi, path) in ALL_PATHS.iter().enumerate() {
+            for (aa, ab, limit, offset) in [("", ":desc", Some(2), None), (":asc", "", Some(3), Some(2)), ("", ":asc", Some(4), Some(1))] {
+                let eph: Vec<bool> = (0..tuples.len()).map(|i| i % 4 == 1).collect();
+                let spec = QSpec { tuples: tuples.clone(), eph, aa, ab, limit, offset, path: *path, via_execute: pi % 2 == 0 };
+                query_case(&mut sink, &rt, &spec, "corpus_query");
+            }
+        }
+    }
+    let nq = (args.n / 5).max(12);
     for qi in 0..nq {
-        let dir = tempfile::tempdir().expect("tempdir");
-        let mut config = Config::default();
-        config.storage.data_dir = dir.path().to_path_buf();
-        let st = StorageEngine::new(config).expect("storage");
-        st.create_knowledge_graph("k").expect("kg");
         let profiles: Vec<u64> = (0..2).map(|_| *rng.pick(&[0u64, 1, 2, 3, 4, 5, 6])).collect();
         let nrows = if qi % 4 == 3 { rng.range(25, 45) } else { rng.range(2, 14) } as usize;
         let mut tuples = vec![];
@@ -329,8 +347,9 @@ fn main() {
             };
             tuples.push(Tuple::new(vec![a, b, Value::Int64(i as i64)]));
         }
-        let ins = st.insert_tuples_into("k", "t", tuples.clone());
-        let handler = Handler::new(st);
+        let mut eph: Vec<bool> = (0..nrows).map(|_| rng.chance(1, 3)).collect();
+        let forced = rng.below(nrows as u64) as usize;
+        eph[forced] = true;
         let ann = |r: &mut Rng| *r.pick(&["", ":asc", ":desc"]);
         let (aa, ab) = (ann(&mut rng), ann(&mut rng));
         let limit = match rng.below(3) {
@@ -338,56 +357,158 @@ fn main() {
             _ => Some(rng.below(nrows as u64 + 2) as usize),
         };
         let offset = if limit.is_some() && rng.chance(2, 3) { Some(rng.below(nrows as u64 + 2) as usize) } else { None };
-        let lim_txt = match (limit, offset) {
-            (Some(l), Some(o)) => format!(", limit({}, {})", l, o),
-            (Some(l), None) => format!(", limit({})", l),
-            _ => String::new(),
-        };
-        let q_full = "?t(A, B, C)".to_string();
-        let q_sorted = format!("?t(A{}, B{}, C){}", aa, ab, lim_txt);
-        let full = rt.block_on(handler.query_program(Some("k".into()), q_full.clone()));
-        let h2 = std::panic::AssertUnwindSafe(&handler);
-        let rt2 = std::panic::AssertUnwindSafe(&rt);
-        let qs = q_sorted.clone();
-        let sorted = catch(move || rt2.block_on(h2.query_program(Some("k".into()), qs)));
-        let mut keys = vec![];
-        for (i, a) in [aa, ab].iter().enumerate() {
-            match *a {
-                ":asc" => keys.push((i, asc)),
-                ":desc" => keys.push((i, desc_)),
-                _ => {}
-            }
-        }
-        let (full_rows, full_err) = match &full {
-            Ok(r) => (r.rows.clone(), None),
-            Err(e) => (vec![], Some(e.clone())),
-        };
-        // failed: 0 = ok, 1 = panic, 2 = Err
-        let (failed, res, total, err) = match &sorted {
-            Ok(Ok(r)) => (0, r.rows.clone(), r.total_count, None),
-            Ok(Err(e)) => (2, vec![], 0, Some(e.clone())),
-            Err(p) => (1, vec![], 0, Some(format!("panic: {}", p))),
-        };
-        if full_err.is_some() || ins.is_err() {
-            // the un-annotated query itself fails (not C35's business): record in the distribution, skip
-            sink.tally("query_setup_failed");
-            eprintln!("note: setup failed: insert={:?} full={:?}", ins.as_ref().err().map(|e| e.to_string()), full_err);
-            continue;
-        }
-        let coq = format!(
-            "(C35Query {} {} {} {} {} {} {})",
-            coq_keys(&keys), coq_onat(limit), coq_onat(offset), coq_rows(&full_rows), coq_nat(failed), coq_rows(&res), coq_nat(total)
-        );
-        let desc = serde_json::json!({"kg": "k", "stored_tuples_of_t": tuples.iter().map(|t| format!("{:?}", t.values())).collect::<Vec<_>>(),
-            "query": q_sorted, "reference_query": q_full, "full_answer": show_rows(&full_rows), "error": err,
-            "result": show_rows(&res), "total_count": total});
-        sink.tally("query_case");
-        if failed != 0 {
-            sink.tally("query_failed");
-        }
-        let nontrivial = !keys.is_empty() && full_rows.len() >= 3 && !res.is_empty();
-        sink.push(coq, desc.clone(), &["handler_query"], if nontrivial { Some(desc.to_string()) } else { None });
-        drop(handler);
+        let path = *rng.pick(&[Path::Plain, Path::Plain, Path::SessClean, Path::SessFactInT, Path::SessFactInT, Path::SessFactOther,
+            Path::SessRule, Path::SessRule, Path::SessFactAndRule]);
+        let via_execute = rng.chance(1, 2);
+        let spec = QSpec { tuples, eph, aa, ab, limit, offset, path, via_execute };
+        query_case(&mut sink, &rt, &spec, "handler_query");
     }
     sink.finish();
+}
+
+#[derive(Clone, Copy, Debug, PartialEq)]
+enum Path {
+    Plain,
+    SessClean,
+    SessFactInT,
+    SessFactOther,
+    SessRule,
+    SessFactAndRule,
+}
+const ALL_PATHS: [Path; 6] = [Path::Plain, Path::SessClean, Path::SessFactInT, Path::SessFactOther, Path::SessRule, Path::SessFactAndRule];
+
+struct QSpec {
+    tuples: Vec<Tuple>,
+    /// which tuples are ephemeral session facts (used by SessFactInT / SessFactAndRule only)
+    eph: Vec<bool>,
+    aa: &'static str,
+    ab: &'static str,
+    limit: Option<usize>,
+    offset: Option<usize>,
+    path: Path,
+    via_execute: bool,
+}
+
+fn query_case(sink: &mut Sink, rt: &tokio::runtime::Runtime, q: &QSpec, tag: &str) {
+    let (asc, desc_) = (SortDirection::Asc, SortDirection::Desc);
+    let dir = tempfile::tempdir().expect("tempdir");
+    let mut config = Config::default();
+    config.storage.data_dir = dir.path().to_path_buf();
+    let st = StorageEngine::new(config).expect("storage");
+    st.create_knowledge_graph("k").expect("kg");
+    let split = matches!(q.path, Path::SessFactInT | Path::SessFactAndRule);
+    let stored: Vec<Tuple> = q.tuples.iter().zip(&q.eph).filter(|(_, e)| !(split && **e)).map(|(t, _)| t.clone()).collect();
+    let ephemeral: Vec<Tuple> = q.tuples.iter().zip(&q.eph).filter(|(_, e)| split && **e).map(|(t, _)| t.clone()).collect();
+    let mut setup_err: Option<String> = None;
+    if !stored.is_empty() {
+        if let Err(e) = st.insert_tuples_into("k", "t", stored.clone()) {
+            setup_err = Some(format!("insert: {}", e));
+        }
+    }
+    let handler = Handler::new(st);
+    let mut session_ops: Vec<String> = vec![];
+    let sid: Option<String> = if q.path == Path::Plain {
+        None
+    } else {
+        match handler.create_session("k") {
+            Ok(s) => Some(s),
+            Err(e) => {
+                setup_err = Some(format!("create_session: {}", e));
+                None
+            }
+        }
+    };
+    if let Some(sid) = &sid {
+        if split {
+            session_ops.push(format!("session_insert_ephemeral t {:?}", ephemeral.iter().map(|t| format!("{:?}", t.values())).collect::<Vec<_>>()));
+            if let Err(e) = handler.session_insert_ephemeral(sid, "t", ephemeral.clone()) {
+                setup_err = Some(format!("session_insert_ephemeral: {}", e));
+            }
+        }
+        if q.path == Path::SessFactOther {
+            session_ops.push("session_insert_ephemeral u [[Int64(1)]]".into());
+            if let Err(e) = handler.session_insert_ephemeral(sid, "u", vec![Tuple::new(vec![Value::Int64(1)])]) {
+                setup_err = Some(format!("session_insert_ephemeral u: {}", e));
+            }
+        }
+        if matches!(q.path, Path::SessRule | Path::SessFactAndRule) {
+            let rule = "w(X) <- t(X, Y, Z)".to_string();
+            session_ops.push(format!("execute_program(session) {}", rule));
+            if let Err(e) = rt.block_on(handler.execute_program(Some(sid), None, rule, None)) {
+                setup_err = Some(format!("session rule: {}", e));
+            }
+        }
+    }
+    let lim_txt = match (q.limit, q.offset) {
+        (Some(l), Some(o)) => format!(", limit({}, {})", l, o),
+        (Some(l), None) => format!(", limit({})", l),
+        _ => String::new(),
+    };
+    let q_full = "?t(A, B, C)".to_string();
+    let q_sorted = format!("?t(A{}, B{}, C){}", q.aa, q.ab, lim_txt);
+    let entry = match (&sid, q.via_execute) {
+        (None, _) => "Handler::query_program(Some(\"k\"), q)",
+        (Some(_), true) => "Handler::execute_program(Some(&sid), None, q, None)",
+        (Some(_), false) => "Handler::query_program_with_session(&sid, q)",
+    };
+    let run = |text: String| {
+        let h = std::panic::AssertUnwindSafe(&handler);
+        let r = std::panic::AssertUnwindSafe(rt);
+        let sid = sid.clone();
+        let via = q.via_execute;
+        catch(move || match &sid {
+            None => r.block_on(h.query_program(Some("k".into()), text)),
+            Some(s) if via => r.block_on(h.execute_program(Some(s), None, text, None)),
+            Some(s) => r.block_on(h.query_program_with_session(s, text)),
+        })
+    };
+    let full = run(q_full.clone());
+    let sorted = run(q_sorted.clone());
+    let mut keys = vec![];
+    for (i, a) in [q.aa, q.ab].iter().enumerate() {
+        match *a {
+            ":asc" => keys.push((i, asc)),
+            ":desc" => keys.push((i, desc_)),
+            _ => {}
+        }
+    }
+    let path_name = format!("{:?}", q.path);
+    let full_rows = match &full {
+        Ok(Ok(r)) if setup_err.is_none() => r.rows.clone(),
+        other => {
+            // the un-annotated reference itself is unavailable (not C35's business): record and skip
+            sink.tally(&format!("query_setup_failed:{}", path_name));
+            eprintln!("note: setup failed on path {}: {:?} / {:?}", path_name, setup_err, other.as_ref().map(|r| r.as_ref().map(|x| x.rows.len())));
+            return;
+        }
+    };
+    // failed: 0 = ok, 1 = panic, 2 = Err
+    let (failed, res, total, err) = match &sorted {
+        Ok(Ok(r)) => (0, r.rows.clone(), r.total_count, None),
+        Ok(Err(e)) => (2, vec![], 0, Some(e.clone())),
+        Err(p) => (1, vec![], 0, Some(format!("panic: {}", p))),
+    };
+    let coq = format!(
+        "(C35Query {} {} {} {} {} {} {})",
+        coq_keys(&keys), coq_onat(q.limit), coq_onat(q.offset), coq_rows(&full_rows), coq_nat(failed), coq_rows(&res), coq_nat(total)
+    );
+    let desc = serde_json::json!({"kg": "k", "path": path_name, "entry_point": entry,
+        "stored_tuples_of_t": stored.iter().map(|t| format!("{:?}", t.values())).collect::<Vec<_>>(),
+        "session_setup": session_ops,
+        "query": q_sorted, "reference_query_same_path": q_full, "full_answer": show_rows(&full_rows), "error": err,
+        "result": show_rows(&res), "total_count": total});
+    sink.tally(&format!("query_path:{}", path_name));
+    if sid.is_some() {
+        sink.tally(if q.via_execute { "query_entry:execute_program" } else { "query_entry:query_program_with_session" });
+    }
+    let cuts = res.len() < full_rows.len();
+    if !keys.is_empty() && cuts {
+        sink.tally(&format!("query_sorted_and_cut:{}", path_name));
+    }
+    if failed != 0 {
+        sink.tally("query_failed");
+    }
+    let nontrivial = !keys.is_empty() && full_rows.len() >= 3 && !res.is_empty();
+    sink.push(coq, desc.clone(), &[tag, &format!("path_{}", path_name)], if nontrivial { Some(desc.to_string()) } else { None });
+    drop(handler);
 }
